@@ -172,6 +172,24 @@ let run cmd (a : string array) : string =
       (match make_from_spec (zl a.(0)) t g recs with
        | Err -> "Err"
        | Ok l -> String.concat ";" (List.map s_out l))
+  (* index prefix(0/1)|adapter;adapter;...|read      adapter = type,seq,wref wq indels force,minov,thr  (k = thr[len seq])
+     ilookup prefix|adapters|s      ilengths prefix|adapters *)
+  | "index" | "ilookup" | "ilengths" ->
+      let ads = List.map (fun s -> let f = Array.of_list (String.split_on_char ',' s) in
+                            let (ad, thr) = single_of f 0 in
+                            let k = List.nth thr (List.length ad.a_seq) in
+                            { ia_ad = ad; ia_thr = thr; ia_k = k }) (split ';' a.(1)) in
+      let pre = List.hd (ints a.(0)) <> 0 in
+      (match cmd with
+       | "index" ->
+           (match index_match pre ads (zl a.(2)) with
+            | None -> "None"
+            | Some ((((r, rs), re), e), m) -> String.concat " " [string_of_int (int_of_nat r); sz rs; sz re; sz e; sz m])
+       | "ilookup" ->
+           (match index_lookup ads (zl a.(2)) with
+            | None -> "None"
+            | Some ((r, e), m) -> String.concat " " [string_of_int (int_of_nat r); sz e; sz m])
+       | _ -> szl (index_lengths ads))
   (* format name (char codes, lower-cased)|has_qual *)
   | "format" ->
       let name = zl a.(0) in
